@@ -13,10 +13,11 @@ TRUSTED = ['Lean 4.33.0 kernel (+ leanchecker in the thorough tier)',
 ASSUME = ['json.loads on user JSON is modelled for RFC 8259 without floats; payloads with floats are counted and skipped',
           'importlib is modelled as an environment: module name -> behaviour; fixture modules realise the behaviours on the real side']
 RULE = ('cases = PELs whose optional sections are user-data / extended-user-data / unrecognised sections, over creator ids x component ids '
-        '(built-in 0x2000, fixture modules behaving echo/raise/None/invalid-text, absent) x subtypes x plugins on/off x payloads '
+        '(built-in 0x2000, fixture modules behaving echo/raise/None/invalid-text/failing-while-being-imported, absent) x subtypes x plugins on/off x payloads '
         '(JSON documents, text lines, random bytes, boundary lengths); non-trivial = at least one UD/ED section; distinct by bytes')
 FIX = {'x1111': ('echo',), 'x2222': ('raises', 'boom: "q" {x}'), 'x3333': ('none',), 'x4444': ('text', 'not json at all'),
-       'x5555': ('text', '[1, 2, {"a": null}]'), 'x6666': ('text', '{"Section Version": "overwritten", "New": [1]}'), 'o1111': ('echo',), 'b2222': ('raises', 'err')}
+       'x5555': ('text', '[1, 2, {"a": null}]'), 'x6666': ('text', '{"Section Version": "overwritten", "New": [1]}'), 'o1111': ('echo',), 'b2222': ('raises', 'err'),
+       'x8888': ('import_raises', 'cannot load: "f" {z}'), 'o8888': ('import_raises', 'no data file')}
 
 
 def sec_entries(doc):
@@ -42,7 +43,7 @@ def run(tier, seed):
                 for _ in range(rng.choice([1, 2, 3, 6])):
                     kind = rng.choice(['ud', 'ud', 'ed', 'other'])
                     sec = {'kind': kind, 'hdr': apel.gen_hdr(rng), 'payload': apel.gen_payload(rng)}
-                    sec['hdr']['comp'] = rng.choice([0x2000, 0x2000, 0x1111, 0x2222, 0x3333, 0x4444, 0x5555, 0x6666, 0x7777, rng.randrange(65536)])
+                    sec['hdr']['comp'] = rng.choice([0x2000, 0x2000, 0x1111, 0x2222, 0x3333, 0x4444, 0x5555, 0x6666, 0x7777, 0x8888, 0x8888, rng.randrange(65536)])
                     sec['hdr']['sub'] = rng.choice([1, 1, 3, 3, 2, 4, 0, 0x48, rng.randrange(256)])
                     if kind != 'other' and rng.random() < 0.45:
                         sec['hdr']['comp'] = 0x2000
@@ -110,7 +111,7 @@ def run(tier, seed):
                         ok = isinstance(dump, list) and all(isinstance(x, str) for x in dump) and bytes(hd.parse(dump)) == sec['payload']
                         if not ok:
                             ck.fail('a section without a decoder does not carry a lossless hex dump of its payload', rp, 'fallback_dump')
-                        if beh and beh[0] in ('raises', 'none') and 'Error' not in members:
+                        if beh and beh[0] in ('raises', 'none', 'import_raises') and 'Error' not in members:
                             ck.fail('parser failure is not noted in the section', rp, 'error_note')
                         ck.count('oracle fallback dump')
         finally:
